@@ -19,7 +19,7 @@ pub static DEF: PropDef = PropDef {
     level: "exploration",
     engine: "meta-cas",
     rule: "one run = 2..4 real ObjectStoreMetadataClients executing 3..8 generated register/delete/complete_compaction/read ops each on one simulated store, every object-store request a scheduling point chosen by the seeded scheduler (plus injected request failures before/after effect and delays in 2/3 of runs); distinct = distinct hash of the (node, request kind, object class, fault) grant sequence; non-trivial = workload completed AND (requests of >=2 nodes interleaved inside an operation OR >=1 fault fired)",
-    quick_runs: 6000,
+    quick_runs: 15000,
     thorough_runs: 150_000,
     run_cap_ms: 20_000,
     scen,
